@@ -71,5 +71,83 @@ def r1(ctx):
             ctx.ok(rule, name + "#skeleton", detail, nontrivial=bool(sw))
 
 
+def r2(ctx):
+    import json
+    import os
+    from ..core import VERIF
+    from .c01 import ld_sites
+    rule = "C10.R2"
+    ctx.rule(rule, "T4 length-determinant discipline in the primitives: the fragment size returned by write_length_determinant is "
+                   "used (or the length is provably below 16K), and every size read with read_length_determinant is compared with "
+                   "the 16K boundary or validated by the callee it is handed to")
+    with open(os.path.join(VERIF, "tables", "discharged_sites.json")) as fh:
+        disc = json.load(fh).get("LD", {})
+    nw, nr = ld_sites(ctx, rule, ("per/unaligned/mod.rs",), disc)
+    ctx.floor(rule, nw, "C10.R2.writer_sites")
+    ctx.floor(rule, nr, "C10.R2.reader_sites")
+
+
+SCALARS = ("u8", "u16", "u32", "u64", "usize", "i8", "i16", "i32", "i64", "isize", "bool",
+           "std::option::Option<u64>", "std::option::Option<i64>")
+R3_KINDS = ("assert.Overflow.Sub", "assert.OverflowNeg", "assert.Overflow.Shl", "assert.Overflow.Shr", "assert.BoundsCheck",
+            "call.index", "call.unwrap")
+
+
+def r3(ctx):
+    import json
+    import os
+    from .. import taint as TT
+    from ..core import VERIF
+    rule = "C10.R3"
+    ctx.rule(rule, "T1 with the scalar parameters of the public primitives as sources: subtraction, negation, shift, index and "
+                   "unwrap sites inside the 26 primitives whose operand derives from a bound / value argument are guarded by a "
+                   "dominating comparison (error, not panic, for inadmissible arguments)")
+    P = ctx.program()
+    prims = [b for b in P.lib_bodies("asn1rs") if (PW in b.path or PR in b.path) and b.def_kind == "AssocFn"
+             and "::promoted[" not in b.path]
+    ctx.floor(rule, len(prims), "C10.R3.primitives")
+    sources = {}
+    for b in prims:
+        locs = [l for l in range(2, b.arg_count + 1) if b.locals[l]["ty"] in SCALARS]
+        if locs:
+            sources[b.key] = set(locs)
+    T = TT.Taint(P, prims, param_sources=sources).run()
+    with open(os.path.join(VERIF, "tables", "discharged_sites.json")) as fh:
+        table = json.load(fh).get("C10.R3", {})
+    gc = {}
+    n = 0
+    prim_keys = {b.key for b in prims}
+    for s in T.sinks():
+        if s.body.key not in prim_keys and (s.body.root is None or ("asn1rs::" + s.body.root) not in prim_keys):
+            continue
+        if s.kind not in R3_KINDS:
+            continue
+        # only operands that depend directly on a scalar parameter of this primitive (not on values read back
+        # through a callee, which the context-insensitive summaries also mark)
+        own = {"param:%d" % l for l in sources.get(s.body.key, ())}
+        if not any(t and (TT.leaves(e) & own) for e, t in zip(s.tops, s.tainted)):
+            continue
+        d = TT.discharge(T, s, gc)
+        detail = {"function": s.body.path, "sink": s.kind, "operands": [X.render(e)[:120] for e in s.ops], "tainted": s.tainted,
+                  "location": s.loc}
+        if d is not None:
+            if d[0] != "untainted":
+                n += 1
+                detail["discharged_by"] = d[0] + ": " + d[1][:160]
+                ctx.ok(rule, s.key, detail)
+            continue
+        n += 1
+        if s.key in table:
+            detail["discharged_by"] = "D6: " + table[s.key]
+            ctx.ok(rule, s.key, detail)
+        else:
+            ctx.fail(rule, s.key, "argument-derived value reaches %s without a dominating test (%s): an inadmissible argument panics "
+                                  "instead of returning an error" % (s.kind, "; ".join(X.render(e)[:80] for e, t in zip(s.tops, s.tainted) if t)),
+                     s.loc, detail)
+    ctx.floor(rule, n, "C10.R3.sites")
+
+
 def run(ctx):
     r1(ctx)
+    r2(ctx)
+    r3(ctx)
